@@ -21,17 +21,31 @@ use crate::z::Z;
 
 pub enum Outcome {
     Text(String),
-    Oob,
+    /// `InterpolateError::OutOfBounds` with its message
+    Oob(String),
     Berr(&'static str),
 }
 
 impl Outcome {
-    fn show(&self) -> String {
+    fn show<T: Scalar>(&self) -> String {
         match self {
             Outcome::Text(s) => s.clone(),
-            Outcome::Oob => "oob".into(),
+            Outcome::Oob(msg) => format!("oob {}", oob_payload::<T>(msg)),
             Outcome::Berr(k) => format!("berr {k}"),
         }
+    }
+}
+
+/// the coordinate and value an `OutOfBounds` message names (`"x = {value:?} is not in range"`), in
+/// protocol form: which rejected element is reported is part of the answer
+fn oob_payload<T: Scalar>(msg: &str) -> String {
+    let mut it = msg.splitn(2, " = ");
+    let axis = it.next().unwrap_or("?").trim();
+    let rest = it.next().unwrap_or("");
+    let val = rest.strip_suffix(" is not in range").unwrap_or(rest).trim();
+    match T::parse_debug(val) {
+        Some(v) => format!("{axis} {}", v.show_canon()),
+        None => format!("{axis} ?{val}"),
     }
 }
 
@@ -47,7 +61,7 @@ fn berr(e: BuilderError) -> Outcome {
 
 fn ierr(e: InterpolateError) -> Outcome {
     match e {
-        InterpolateError::OutOfBounds(_) => Outcome::Oob,
+        InterpolateError::OutOfBounds(msg) => Outcome::Oob(msg),
     }
 }
 
@@ -631,16 +645,16 @@ pub fn run_line(line: &str) -> String {
     ORDER.with(|o| o.set(id.parse::<u64>().unwrap_or(0)));
     let r = catch_unwind(AssertUnwindSafe(|| {
         let r = match s {
-            "Q" => run_op::<Q>(&mut t),
-            "F" => run_op::<f64>(&mut t),
+            "Q" => run_op::<Q>(&mut t).map(|o| (matches!(o, Outcome::Berr(_)), o.show::<Q>())),
+            "F" => run_op::<f64>(&mut t).map(|o| (matches!(o, Outcome::Berr(_)), o.show::<f64>())),
             // i64 elements (through the transparent stand-in `Z`): integer division, integer casts
-            "I" => run_op::<Z>(&mut t),
+            "I" => run_op::<Z>(&mut t).map(|o| (matches!(o, Outcome::Berr(_)), o.show::<Z>())),
             _ => Err(format!("bad scalar type {s}")),
         };
         match r {
-            Ok(o) => {
-                if matches!(o, Outcome::Berr(_)) || t.done() {
-                    o.show()
+            Ok((is_berr, text)) => {
+                if is_berr || t.done() {
+                    text
                 } else {
                     "bad-op trailing tokens".into()
                 }
